@@ -11,7 +11,8 @@ from symx.core import SI, SB
 META = dict(
     functions=["filecache.cache_object.FileCache.__init__/_initialize_cache/__getitem__/get_cache_misses/"
                "_cache_eviction/_remove_item_from_cache/_size/remove/purge/in_cache", "FileCacheConfig (all)",
-               "_download_from_resources/_worker", "_get_total_size_of_files_in_bytes", "_hashname",
+               "_download_from_resources/_worker", "_get_total_size_of_files_in_bytes", "_hashname", "filecache.filecache.create_cache/filepaths/exists/"
+               "delete_files/delete_cache/get_cache (module level API)",
                "parse_directives/parse_directive"],
     bounds=dict(quick="URI alphabet {A,B,C,A<<x} + one foreign file; every subset of A,B,C present beforehand with "
                       "symbolic sizes (20..4000 bytes) and symbolic distinct time stamps; symbolic maximum size; one "
@@ -245,6 +246,72 @@ def _subsets():
             yield c
 
 
+def case_module_api(ctx, present):
+    """the module level API (filecache.create_cache / filepaths / exists / delete_files / delete_cache / get_cache),
+    which is what callers use, gives the results of the cache object it wraps: same paths and contents, a single URI
+    given as a string is one request, names and directories are unique, removal and deletion do what they say and
+    leave foreign files alone"""
+    import ocean_science_utilities.filecache.filecache as FM
+    from props import cache_world as CW
+    present = list(present)
+    w, sizes, times, mx = setup(ctx, present)
+    w.install()
+    root = getattr(w, "root", CW.ROOT)
+    saved = dict(FM._ACTIVE_FILE_CACHES)
+    FM._ACTIVE_FILE_CACHES.clear()
+    try:
+        ctx.noraise("D-API.create", FM.create_cache, "c", root, mx, False, False, [w.resource()])
+        ctx.reach("D-API")
+        ctx.check(FM.exists("c") and not FM.exists("zz"), "D-API.exists")
+        out = ctx.noraise("D-API.raise", FM.filepaths, [A, B], "c")
+        ctx.check(list(out) == [w.path_of(A), w.path_of(B)], "D-API.paths", info="one path per URI, in order")
+        for u, p in zip([A, B], out):
+            ctx.check(w.exists(p) and w.content(p) == ("ok", u), "D-API.content", info=dict(uri=u))
+        one = ctx.noraise("D-API.raise", FM.filepaths, A, "c")
+        ctx.check(list(one) == [w.path_of(A)], "D-API.single", info="a single URI given as a string is one request")
+        for nm, args in (("same name", ("c", root + "_other")), ("same directory", ("d", root))):
+            try:
+                FM.create_cache(*args, resources=[w.resource()])
+                bad = True
+            except ValueError:
+                bad = False
+            ctx.check(not bad, "D-API.unique", info=f"a second cache with the {nm} is refused")
+            FM._ACTIVE_FILE_CACHES.pop("d", None)
+        foreign_before = {p: f for p, f in w.listing().items() if not w.is_cache_file(p)}
+        ctx.noraise("D-API.raise", FM.delete_files, A, "c")
+        ctx.check(not w.exists(w.path_of(A)) and w.exists(w.path_of(B)), "D-API.delete", info="the named file is removed, others stay")
+        cache = FM.get_cache("c")
+        disk = {p for p in w.listing() if w.is_cache_file(p)}
+        ctx.check(set(cache._entries.values()) == disk, "D-API.entries", info="entries == cache files on disk")
+        # removing a URI that is not cached: whether that raises is not part of the property (the documented ValueError
+        # is in fact unreachable: `not self.in_cache(uri)` tests a non-empty list); what the property needs is that
+        # the cache state stays consistent and unchanged
+        before = w.listing()
+        for flag in (True, False):
+            try:
+                FM.delete_files([A], "c", flag)
+            except ValueError:
+                pass
+        ctx.check(set(w.listing()) == set(before), "D-API.delete-absent", info="removing an absent URI changes nothing")
+        ctx.check(set(cache._entries.values()) == {p for p in w.listing() if w.is_cache_file(p)}, "D-API.entries")
+        ctx.noraise("D-API.raise", FM.delete_cache, "c")
+        ctx.check(not FM.exists("c"), "D-API.deleted")
+        ctx.check(not any(w.is_cache_file(p) for p in w.listing()), "D-API.purged", info="every cache file is gone")
+        after = {p: f for p, f in w.listing().items() if not w.is_cache_file(p)}
+        ctx.check(set(after) == set(foreign_before) and all(after[p]["content"] == foreign_before[p]["content"]
+                                                           for p in after), "D-API.foreign", info="foreign files untouched")
+        try:
+            FM.get_cache("c")
+            raised = False
+        except ValueError:
+            raised = True
+        ctx.check(raised, "D-API.unknown", info="an unknown (non-default) cache name is an error")
+    finally:
+        FM._ACTIVE_FILE_CACHES.clear()
+        FM._ACTIVE_FILE_CACHES.update(saved)
+        w.close()
+
+
 def cases(tier):
     cs = []
     q = tier == "quick"
@@ -275,6 +342,8 @@ def cases(tier):
             if op == "remove" and not present:
                 continue
             add("case_remove_purge_reopen", f"{op}_{tagof(present)}", present=list(present), op=op)
+    for present in ((), (A,), (B, Cc)):
+        add("case_module_api", f"module_api_{tagof(present)}", present=list(present))
     if not q:
         for first, second in (([A, B], [Cc]), ([A], [B, Cc]), ([A, B], [A, Cc]), ([A, B, Cc], [A])):
             add("case_two_requests", f"two_{tagof(first)}__{tagof(second)}", first=first, second=second,
